@@ -26,7 +26,8 @@ inductive RunEnd where
   | keyboardInterrupt       -- stop event seen inside `step`, or raised by user code
   | skipTest                -- unittest.SkipTest (explicit phase without examples)
   | failureGroup            -- a check failed
-  | flaky
+  | flaky                   -- Flaky, and the suite collected some check failure (mark them as seen, run again)
+  | flakyNoFailure          -- Flaky without any check failure in the suite (repaired loop: an error, leave the loop)
   | unsatisfiableRetry      -- Unsatisfiable after some completed scenarios, below max_examples: run again
   | unsatisfiableGiveUp     -- … at or above max_examples: leave the loop
   | otherException
@@ -47,6 +48,7 @@ def endOf (s : Suite) : Status × List SEv × Bool :=
   | .skipTest => (.skip, [], false)
   | .failureGroup => (.failure, [], !s.limitReached)
   | .flaky => (.failure, [], !s.limitReached)
+  | .flakyNoFailure => if s.limitReached then (.failure, [], false) else (.error, [.nonFatal], false)
   | .unsatisfiableRetry => (.success, [], true)
   | .unsatisfiableGiveUp => (.success, [], false)
   | .otherException => (.error, [.nonFatal], false)
